@@ -747,7 +747,10 @@ SET_OF_encode_xer(const asn_TYPE_descriptor_t *td, const void *sptr, int ilevel,
 		tmper = elm->type->op->xer_encoder(elm->type, memb_ptr,
 				ilevel + (specs->as_XMLValueList != 2),
 				flags, cb, app_key);
-		if(tmper.encoded == -1) return tmper;
+		if(tmper.encoded == -1) {
+			er = tmper;
+			goto cleanup;
+		}
 		er.encoded += tmper.encoded;
 		if(tmper.encoded == 0 && specs->as_XMLValueList) {
 			const char *name = elm->type->xml_tag;
@@ -784,7 +787,9 @@ SET_OF_encode_xer(const asn_TYPE_descriptor_t *td, const void *sptr, int ilevel,
 
 	goto cleanup;
 cb_failed:
-	ASN__ENCODE_FAILED;
+	er.encoded = -1;
+	er.failed_type = td;
+	er.structure_ptr = sptr;
 cleanup:
 	if(encs) {
 		size_t n;
@@ -793,6 +798,7 @@ cleanup:
 		}
 		FREEMEM(encs);
 	}
+	if(er.encoded == -1) return er;
 	ASN__ENCODED_OK(er);
 }
 
